@@ -159,8 +159,8 @@ def run(ctx):
     app_stmt = None
     for c in U.calls(wr.node):
         m = U.kwarg(c, 'mode', 1)
-        if isinstance(m, ast.Constant) and isinstance(m.value, str) and 'a' in m.value and c.args \
-                and U.is_self_attr(c.args[0], '_warc_filename'):
+        if isinstance(m, ast.Constant) and isinstance(m.value, str) and ('a' in m.value or 'w' in m.value) and c.args \
+                and U.is_self_attr(c.args[0], '_warc_filename') and app_stmt is None:
             app_stmt = U.enclosing_stmt(c, pm)
     if app_stmt is None:
         raise AnalysisError('append-open of the archive not found in write_record')
